@@ -287,7 +287,7 @@ def _export_ili_definition(synset_rowid: int) -> Optional[lmf.ILIDefinition]:
     _, _, defn, rowid = next(find_proposed_ilis(synset_rowid=synset_rowid),
                              (None, None, None, None))
     ilidef: Optional[lmf.ILIDefinition] = None
-    if defn:
+    if defn is not None:
         meta = None
         if rowid is not None:
             meta = _export_metadata(rowid, 'proposed_ilis')
